@@ -569,6 +569,10 @@ class Ref:
         out["state"] = inst.state
         return out
 
+    def op_bind_foreign(self, op, epoch):
+        inst = self.insts[op["inst"]]
+        return {"res": None, "exc": None, "execs": [], "state": inst.state}
+
     def op_noop(self, op, epoch):
         return {"res": None, "exc": None, "execs": [], "state": None, "noop": True}
 
